@@ -102,9 +102,25 @@ def _stored(cin):
     fam = cin["fam"]
     frame, kw = lifecat.build(fam, "baseline", cin["name"])
     same = True
+    prior = cin.get("prior", "none")
+    as_fresh = True
+
+    def close(x, y):
+        if (x is None) != (y is None):
+            return False
+        return x is None or bool(np.isclose(x, y, rtol=1e-9, atol=1e-12, equal_nan=True))
+
     if fam == "hourly":
         b = em.HourlyBaselineData(frame, **kw)
-        m = em.HourlyModel(settings=em.HourlyNonSolarSettings(seed=1)).fit(b, ignore_disqualification=True)
+        m = em.HourlyModel(settings=em.HourlyNonSolarSettings(seed=1))
+        if prior != "none":
+            fresh = em.HourlyModel(settings=em.HourlyNonSolarSettings(seed=1)).fit(b, ignore_disqualification=True).baseline_metrics.model_dump()
+            fp, kp = lifecat.build(fam, "baseline", prior)
+            m.fit(em.HourlyBaselineData(fp, **kp), ignore_disqualification=True)
+        m.fit(b, ignore_disqualification=True)
+        if prior != "none":
+            mine = m.baseline_metrics.model_dump()
+            as_fresh = all(close(mine.get(k), fresh.get(k)) for k in ("n", "rmse", "rmse_adj", "cvrmse", "cvrmse_adj", "pnrmse", "pnrmse_adj", "mae", "mbe", "r_squared"))
         pred = m.predict(b, ignore_disqualification=True)
         cols = [c for c in pred.columns if c.startswith("interpolated_")]
         keep = ~pred[cols].any(axis=1)
@@ -122,12 +138,19 @@ def _stored(cin):
         C = em.DailyBaselineData if fam == "daily" else em.BillingBaselineData
         M = (lambda: em.DailyModel(model="legacy")) if fam == "daily" else em.BillingModel
         b = C(frame, **kw)
-        m = M().fit(b, ignore_disqualification=True)
+        m = M()
+        if prior != "none":
+            fresh = dict(M().fit(b, ignore_disqualification=True).error)
+            fp, kp = lifecat.build(fam, "baseline", prior)
+            m.fit(C(fp, **kp), ignore_disqualification=True)
+        m.fit(b, ignore_disqualification=True)
+        if prior != "none":
+            as_fresh = all(close(m.error.get(k), fresh.get(k)) for k in fresh)
         pred = m.predict(b, ignore_disqualification=True)
         poor = m.error["CVRMSE"] > m.settings.cvrmse_threshold
         has = any(w.qualified_name == "eemeter.model_fit_metrics.cvrmse" for w in m.disqualification)
         gate_ok = bool(bool(poor) == has)
-    return {"res": "ok", "same": bool(same), "gateOk": gate_ok}
+    return {"res": "ok", "same": bool(same), "gateOk": gate_ok, "asFresh": bool(as_fresh)}
 
 
 def realise(cin, variant):
